@@ -765,6 +765,42 @@ let run_case (t : string list) : string =
         out := (string_of_n b.Dialer.b_attempts ^ ":" ^ string_of_n b.Dialer.b_deadline) :: !out
       done;
       Stdlib.String.concat " " (Stdlib.List.rev !out)
+  | "mgrtrace" :: evs ->
+      (* replays recorded manager events on Shutdown.v: see ShutdownTrace.tev *)
+      let rec nat_of_int i = if i <= 0 then Datatypes.O else Datatypes.S (nat_of_int (i - 1)) in
+      let rec int_of_nat n = match n with Datatypes.O -> 0 | Datatypes.S m -> 1 + int_of_nat m in
+      let b x = x = "1" in
+      let kind x = if x = "c" then Shutdown.CConnect else Shutdown.CShutdown in
+      let ev tok =
+        match Stdlib.String.split_on_char ':' tok with
+        | [ "S"; k; sent ] -> ShutdownTrace.TSubmit (kind k, b sent)
+        | [ "P"; k ] -> ShutdownTrace.TProcess (kind k)
+        | [ "I" ] -> ShutdownTrace.TIncoming
+        | [ "N" ] -> ShutdownTrace.TAcceptNone
+        | [ "R"; reply; ok; reg; peer ] -> ShutdownTrace.TConnResult (b reply, b ok, b reg, n_of_string peer)
+        | [ "D"; peer ] -> ShutdownTrace.TDisconnect (n_of_string peer)
+        | [ "q+"; h ] -> ShutdownTrace.TReqStart (n_of_string h)
+        | [ "q-"; h ] -> ShutdownTrace.TReqEnd (n_of_string h)
+        | [ "X"; h ] -> ShutdownTrace.THExit (n_of_string h)
+        | [ "A"; h ] -> ShutdownTrace.THAbort (n_of_string h)
+        | [ "J"; c ] -> ShutdownTrace.TJoin (b c)
+        | [ "H" ] -> ShutdownTrace.THandlesDropped
+        | [ "AP" ] -> ShutdownTrace.TAbortPending
+        | [ "AJ" ] -> ShutdownTrace.TAllJoined
+        | [ "C"; n ] -> ShutdownTrace.TCleanup (nat_of_int (int_of_string n))
+        | [ "F" ] -> ShutdownTrace.TFinish
+        | _ -> failwith ("bad manager event " ^ tok)
+      in
+      let (s, rej) = ShutdownTrace.trun Shutdown.init Datatypes.O (Stdlib.List.map ev evs) in
+      let phase = match s.Shutdown.ph with
+        | Shutdown.MLoop -> "loop" | Shutdown.MClosing -> "closing" | Shutdown.MWaitHandlers -> "wait-handlers"
+        | Shutdown.MAssert -> "cleanup" | Shutdown.MWaitIdle -> "wait-idle" | Shutdown.MDone -> "done" | Shutdown.MPanicked -> "panicked" in
+      let entries = Stdlib.String.concat "," (Stdlib.List.sort compare (Stdlib.List.map (fun (p, _) -> string_of_n p) s.Shutdown.entries)) in
+      Printf.sprintf "%s ph=%s entries=[%s] hands=%d inbound=%d lost=%d ansok=%d ansfail=%d unanswered=%d"
+        (match rej with None -> "accepted" | Some k -> "rejected@" ^ string_of_int (int_of_nat k))
+        phase entries (Stdlib.List.length s.Shutdown.hands) (int_of_nat s.Shutdown.inbound) (int_of_nat s.Shutdown.lost_events)
+        (int_of_nat (ShutdownTrace.count_answers true s)) (int_of_nat (ShutdownTrace.count_answers false s))
+        (int_of_nat (ShutdownTrace.unanswered s))
   | "netmodel" :: spec :: "|" :: ops ->
       (* netmodel <id:name:alt|-:limit|-;...> | D a b [x] | X a b | R a | K a p aff | P a b | H a b | Q *)
       let nodes =
